@@ -45,6 +45,9 @@ PROJECTS = {
     'zope_reexported': [('zp', 'from zp._impl import IFoo\n__all__ = ["IFoo"]\n', True),
                         ('zp._impl', 'from zope.interface import Interface\nclass IFoo(Interface):\n    def m(): "doc"\n', False),
                         ('zp.late', 'from zp._impl import IFoo\nfrom zope.interface import implementer\nclass ISub(IFoo):\n    "sub"\nclass ISubSub(ISub):\n    pass\n@implementer(IFoo, ISub)\nclass Impl:\n    def m(self): pass\n', False)],
+    # docstring fields that name something that is not a variable (a submodule, a nested class, a method)
+    'fields_on_non_variables': [('fv', '"""Package.\n\n@var sub: a submodule\n@var K: a class\n@var f: a function\n@type sub: module\n"""\nclass K:\n    """\n    @ivar N: nested class\n    @cvar m: a method\n    """\n    class N: pass\n    def m(self): pass\ndef f(): pass\n', True),
+                                ('fv.sub', 'x = 1\n', False)],
     # variables that the docstring of their module / class documents by fields (@type only, @var, @ivar), assigned or not
     'docstring_fields': [('df', '"""Module.\n\n@type x: int\n@var y: documented\n@type w: str\n"""\nx = 1\ny = 2\nz = 3\n'
                                 'class K:\n    """\n    @type a: int\n    @ivar b: documented only\n    @cvar c: doc\n    """\n    a = 1\n    c = 2\n    def __init__(self):\n        self.d = 3\n', False)],
@@ -144,6 +147,14 @@ def check_model(system):
         if isinstance(o, model.Function) and not isinstance(o.parent, model.Class) and \
                 o.kind in (model.DocumentableKind.METHOD, model.DocumentableKind.CLASS_METHOD, model.DocumentableKind.STATIC_METHOD):
             fails.append({'observed': f'{key} is a {o.kind.name} in a {type(o.parent).__name__}', 'required': 'has a kind that fits its place (methods live in classes)', 'class': 'kind-outside-class'})
+        K_ = model.DocumentableKind
+        natural = {model.Package: (K_.PACKAGE,), model.Module: (K_.MODULE, K_.PACKAGE), model.Class: (K_.CLASS, K_.INTERFACE, K_.EXCEPTION),
+                   model.Function: (K_.FUNCTION, K_.METHOD, K_.CLASS_METHOD, K_.STATIC_METHOD)}
+        for typ_, kinds_ in natural.items():
+            if isinstance(o, typ_):
+                if o.kind not in kinds_ and not (isinstance(o, model.Function) and o.kind in (K_.ATTRIBUTE, K_.SCHEMA_FIELD)):
+                    fails.append({'observed': f'{key} is a {type(o).__name__} of kind {o.kind}', 'required': 'has a kind that fits its place', 'class': 'kind-of-type'})
+                break
         if isinstance(o, model.Attribute) and o.kind is None and o.value is not None:
             fails.append({'observed': f'{key} is assigned in the source ({type(o.value).__name__}) but has no kind (which hides it)', 'required': 'has a kind that fits its place',
                           'class': 'kind-missing'})
